@@ -669,6 +669,9 @@ def spec_forall2_rect(eng, args, kwargs, st):
     """forall2_rect(n, m, lambda i, j: body): i in [0, n), j in [0, m)"""
     n, m, lam = args
     nc, mc = concrete(n), concrete(m)
+    if (nc is not None and nc <= 0) or (mc is not None and mc <= 0):
+        yield True, st          # an empty rectangle
+        return
     if nc is not None and mc is not None and nc * mc <= 400:
         parts = []
         for a in range(int(nc)):
@@ -782,6 +785,16 @@ def spec_raises(eng, args, kwargs, st):
 
 def spec_declare(kind):
     def f(eng, args, kwargs, st):
+        kwargs = dict(kwargs)
+        # literal keyword values (e.g. havoc={'acc': 'obj'}) are read from the source of the clause
+        call = getattr(getattr(eng, 'cur_stmt', None), 'value', None)
+        if isinstance(call, ast.Call):
+            for kw in call.keywords:
+                if kw.arg in ('havoc',):
+                    try:
+                        kwargs[kw.arg] = ast.literal_eval(kw.value)
+                    except ValueError:
+                        pass
         eng.clauses.append({'kind': kind, 'args': args, 'kwargs': kwargs})
         yield None, st
     return f
